@@ -27,7 +27,9 @@ BAD_LOGGING = [{"level": "LOUD"}, {"level": "ERROR"}, {"level": "ALL", "destinat
                # wrong JSON types
                "ALL", 7, ["ALL"], {"level": ["ALL"]}, {"level": {"x": 1}}, {"level": 3}, {"level": "ALL", "destinations": "x"},
                {"level": "ALL", "destinations": {"a": 1}}, "__null__"]
-INPUTS = ['{"a": 1}', '{}', '[1, 2, 3]', '"text"', '{"nested": {"k": [true, null]}}']
+INPUTS = ['{"a": 1}', '{}', '[1, 2, 3]', '"text"', '{"nested": {"k": [true, null]}}',
+          # legal inputs that are falsy in Python: still the execution's input
+          '[]', '0', 'false', '""']
 BAD_INPUTS = ["{bad", "", 5]
 FILTERS = [None, None, "RUNNING", "SUCCEEDED", "FAILED", "TIMED_OUT", "ABORTED"]
 BAD_FILTERS = [["FAILED"], {"a": 1}, 5, "running", "DONE", ""]
